@@ -196,6 +196,10 @@ func (ix *xIndex) pkgByImport(path string) *xPkg {
 	return ix.Pkgs[strings.TrimPrefix(path, repoModule)]
 }
 
+func printerFprint(w interface{ Write([]byte) (int, error) }, n ast.Node) error {
+	return printer.Fprint(w, token.NewFileSet(), n)
+}
+
 func srcText(e ast.Node) string {
 	var b bytes.Buffer
 	printer.Fprint(&b, token.NewFileSet(), e)
